@@ -21,6 +21,7 @@ class Recorder:
         self.uses_after_fault = 0
         self.counts = {}
         self.mutations = []  # descriptions of in-place mutations of argument objects
+        self.invoked = {}    # calls of user callables counted at call time (flavours whose result is awaited later)
         # cancellation plan: throw at the n-th suspension token overall
         self.susp = 0  # suspensions per async use
 
@@ -38,6 +39,15 @@ class Recorder:
             self.fault_fired = True
             return True
         return False
+
+
+# where in-place operations on argument objects are reported (set by the run that owns the objects)
+MUTATION_SINK = []
+
+
+def set_mutation_sink(lst):
+    global MUTATION_SINK
+    MUTATION_SINK = lst
 
 
 class InjectedError(Exception):
@@ -111,6 +121,10 @@ class Item:
     def __radd__(self, o):
         return Node("add", (o, self))
 
+    def __iadd__(self, o):      # an item is the caller's object: adding in place would change it
+        MUTATION_SINK.append("item.__iadd__")
+        return Node("add", (self, o))
+
 
 class Node:
     """Free constructor: the result of a user function / of ``+``."""
@@ -128,6 +142,11 @@ class Node:
 
     def __radd__(self, o):
         return Node("add", (o, self))
+
+    def __iadd__(self, o):
+        if self.f != "add":     # a user's object (initial value, result of a user function); sums are the library's own
+            MUTATION_SINK.append(f"{self.f}.__iadd__")
+        return Node("add", (self, o))
 
     def __eq__(self, o):
         return isinstance(o, Node) and self.f == o.f and self.a == o.a
@@ -370,14 +389,14 @@ ASYNC_ITER_FLAVOURS = ("cls", "agen")  # flavours that own something to release
 
 # --------------------------------------------------------------------------- callables
 
-FLAVOURS_CALL = ("asyncdef", "def", "partial", "obj", "aw", "cls")
+FLAVOURS_CALL = ("asyncdef", "def", "partial", "obj", "aw", "cls", "objfalsy")
 FLAVOURS_SYNC_ONLY = ("mixed", "mixed2")   # for asynctools.sync: calls of one function differ in kind
 
 
 def _semantics(rec, name):
     """The total function the spec fixes for user callable ``name``."""
     if name == "pred":
-        return lambda x: x.k != 0
+        return lambda x: x.k == 0     # deliberately not the item's own truth value (that is what predicate None means)
     if name == "key":
         return lambda x: x.k
     if name == "key2":
@@ -406,6 +425,10 @@ def make_callable(flavour, rec: Recorder, name, sem=None):
 
         return f
 
+    def invoked():
+        """Counted when the callable is *called* (the event is logged when its result is awaited)."""
+        rec.invoked[name] = rec.invoked.get(name, 0) + 1
+
     async def af(*a):
         await suspend(rec.acct, ("call", name), rec.susp)
         return body(*a)
@@ -427,6 +450,7 @@ def make_callable(flavour, rec: Recorder, name, sem=None):
                 return self.coro.__await__()
 
         def faw(*a):
+            invoked()
             return Awaitable_(af(*a))
 
         return faw
@@ -442,16 +466,21 @@ def make_callable(flavour, rec: Recorder, name, sem=None):
     if flavour == "cls":
         class AwaitableCall:   # calling the class makes an awaitable instance
             def __init__(self, *a):
+                invoked()
                 self.a = a
 
             def __await__(self):
                 return af(*self.a).__await__()
 
         return AwaitableCall
-    if flavour == "obj":
+    if flavour in ("obj", "objfalsy"):
         class CallObj:
             def __call__(self, *a):
+                invoked()
                 return af(*a)
+
+            def __bool__(self):         # e.g. a rule set that is callable and, being empty, falsy
+                return flavour == "obj"
 
         return CallObj()
     raise ValueError(flavour)
